@@ -343,6 +343,15 @@ func lookup(fr *frame, instr *ssa.Lookup, x, idx value) value {
 // numeric datatypes and strings.  Both operands must have identical
 // dynamic type.
 func binop(fr *frame, op token.Token, t types.Type, x, y value) value {
+	_, ofx := x.(opaqueFloat)
+	_, ofy := y.(opaqueFloat)
+	if ofx || ofy {
+		switch op {
+		case token.ADD, token.SUB, token.MUL, token.QUO:
+			return opaqueFloat{}
+		}
+		panic(unsupported("comparison on a float derived from symbolic data"))
+	}
 	if isSym(x) || isSym(y) {
 		return symBinop(fr, op, x, y)
 	}
@@ -1256,7 +1265,7 @@ func conv(fr *frame, t_dst, t_src types.Type, x value) value {
 				panic(unsupported("conversion of symbolic integer to string (rune)"))
 			}
 			if bd.Info()&types.IsFloat != 0 {
-				panic(unsupported("conversion of symbolic integer to float"))
+				return opaqueFloat{} // only usable as data (metrics); never decided upon
 			}
 			return symConv(s, bd.Kind())
 		}
@@ -1573,3 +1582,7 @@ func fandbits[F floaty](x, y F) F {
 	}
 	return x
 }
+
+// opaqueFloat is a floating point value derived from symbolic integers (clock readings
+// feeding metrics). It can be passed around but never inspected.
+type opaqueFloat struct{}
